@@ -135,7 +135,7 @@ def _validate(ctx, cwd, module, cfg, path, timeout):
     return (res.ok and "TRACE REJECTED" not in res.out), res
 
 
-def judge_trace(ctx, cwd, module, cfg, path, segment_of, key_of, label, max_rounds=6, timeout=900):
+def judge_trace(ctx, cwd, module, cfg, path, segment_of, key_of, label, max_rounds=3, timeout=900):
     """Validates an NDJSON trace; every rejected segment is reported (ctx.report with a replay
     file holding the segment's events) and cut out, then the rest is validated again, so that
     several independent violations in one trace are all seen.  `segment_of(events, idx)` gives
